@@ -372,3 +372,81 @@ Definition assertion_of (p : params) : option N :=
 (** secrecy classification used by C13(7): credentials *)
 Fixpoint is_credential (v : sval) : bool :=
   match v with VSecret | VAssert _ => true | VCat _ x => is_credential x | _ => false end.
+
+(** * Histories of ONE process: every consumer of the value generator
+    pkg/strings.Generate is process-wide: the login (nonce, state; the PKCE verifier and the assertion's jti are further
+    draws of the model's counter), the self-initiated logout (state) and - when the provider's ID token carries no sid and
+    the callback no session_state - the login callback (the generated session id, 64 bytes; then the session's data key)
+    all consume it, in whatever order requests arrive and for whatever configuration. A history is a list of operations,
+    each with the configuration it is served under; the counter is threaded through all of them. Operations that draw
+    nothing (logout callback, front-channel logout, local logout, refused callbacks, logins without a matching ingress)
+    leave the counter where it is. *)
+Inductive dkind := DNonce | DState | DVerifier | DLogoutState | DSessionId | DDataKey.
+
+Inductive hop :=
+| HLogin (q : areq) (referer : sval) (replies : list par_reply)   (* visit to the login endpoint *)
+| HCallback (r : cbreq) (tokens_ok : bool) (provider_sid : bool)  (* login callback; provider_sid: the ID token carries a sid *)
+| HLogout (q : areq) (redirect_to : sval)                         (* self-initiated logout, with or without a session *)
+| HLogoutCallback                                                  (* return from the provider's end-session endpoint *)
+| HLogoutFrontChannel                                              (* provider-initiated logout *)
+| HLogoutLocal.                                                    (* local logout *)
+
+Record hstep_out := {
+  hs_ok : bool;                    (* login: authorization request produced; callback: session created; logout: redirected *)
+  hs_visible : bool;               (* the values drawn were handed to somebody (browser or provider) *)
+  hs_draws : list (dkind * N);     (* the values drawn by this operation, in the order they are drawn *)
+  hs_rnd : N                       (* generator counter afterwards *)
+}.
+
+Definition hist_nothing (ok : bool) (rnd : N) : hstep_out :=
+  {| hs_ok := ok; hs_visible := true; hs_draws := []; hs_rnd := rnd |}.
+
+Definition bops_nil (l : list bop) : bool := match l with [] => true | _ => false end.
+
+(* Client.Login for the first matching ingress (all matching ingresses draw alike) *)
+Definition hist_login (c : acfg) (q : areq) (referer : sval) (replies : list par_reply) (rnd : N) : hstep_out :=
+  match matching_ingresses c q with
+  | [] => hist_nothing false rnd
+  | i :: _ =>
+    let o := login_par c q rnd referer replies i in
+    {| hs_ok := lo_ok o; hs_visible := lo_ok o || negb (bops_nil (lo_back o));
+       hs_draws := [(DNonce, rnd); (DState, rnd + 1); (DVerifier, rnd + 2)]; hs_rnd := lo_rnd o |}
+  end.
+
+(* Standalone.LoginCallback: the client authentication of the token request is built first (a jti draw with a private
+   key); SessionManager.Create then takes the session id from the provider or generates it (ExternalID), and makes the
+   ticket with a new data key (NewTicket) *)
+Definition hist_callback (c : acfg) (r : cbreq) (tokens_ok provider_sid : bool) (rnd : N) : hstep_out :=
+  let o := callback c (fun _ _ => tokens_ok) rnd r in
+  let rnd1 := if bops_nil (co_back o) then rnd else if a_use_secret c then rnd else rnd + 1 in
+  if co_session o
+  then let rnd2 := if provider_sid then rnd1 else rnd1 + 1 in
+       {| hs_ok := true; hs_visible := true;
+          hs_draws := (if provider_sid then [] else [(DSessionId, rnd1)]) ++ [(DDataKey, rnd2)]; hs_rnd := rnd2 + 1 |}
+  else hist_nothing false rnd1.
+
+Definition hist_logout (c : acfg) (q : areq) (redirect_to : sval) (rnd : N) : hstep_out :=
+  match matching_ingresses c q with
+  | [] => hist_nothing false rnd
+  | i :: _ =>
+    let o := logout_with c rnd redirect_to i in
+    {| hs_ok := go_ok o; hs_visible := true; hs_draws := [(DLogoutState, rnd)]; hs_rnd := go_rnd o |}
+  end.
+
+Definition hist_step (c : acfg) (op : hop) (rnd : N) : hstep_out :=
+  match op with
+  | HLogin q referer replies => hist_login c q referer replies rnd
+  | HCallback r tokens_ok provider_sid => hist_callback c r tokens_ok provider_sid rnd
+  | HLogout q redirect_to => hist_logout c q redirect_to rnd
+  | HLogoutCallback | HLogoutFrontChannel | HLogoutLocal => hist_nothing true rnd
+  end.
+
+(* all draws of a history, in order, and the counter after it *)
+Fixpoint hist_run (ops : list (acfg * hop)) (rnd : N) : list (dkind * N) * N :=
+  match ops with
+  | [] => ([], rnd)
+  | (c, op) :: r =>
+    let o := hist_step c op rnd in
+    let '(d, rnd') := hist_run r (hs_rnd o) in
+    (hs_draws o ++ d, rnd')
+  end.
